@@ -17,7 +17,7 @@ func init() {
 		Nontrivial: func(r *RunRes) bool { return r.Probes["handler-panics"] > 0 && r.NOps >= 3 }})
 }
 
-var panicKinds = []string{"string", "error", "custom", "nilmap", "nilderef", "index", "nil", "bigstring"}
+var panicKinds = []string{"string", "error", "custom", "nilmap", "nilderef", "index", "nil", "bigstring", "abort", "ctxerr", "eof"}
 
 func genC13(r *simrt.RNG, tier string, variant int) Plan {
 	p := Plan{Family: "healthy", Params: map[string]int64{}}
